@@ -22,3 +22,46 @@ package tun
 //@   at call Send#1: assert ok-status: err == nil ==> (status.Status == protocol.TunnelStatusCode_STATUS_OK && status.Error == "")
 //@   at call Send#1: assert no-direct-status: (err != nil && IsNoDirect(err)) ==> status.Status == protocol.TunnelStatusCode_NO_DIRECT
 //@   at call Send#1: assert unknown-status: (err != nil && !IsNoDirect(err)) ==> status.Status == protocol.TunnelStatusCode_UNKNOWN_ERROR
+
+// ---- key builders are pure functions of their arguments (fmt.Sprintf of fixed formats)
+//@ func DestinationByChordKey(chord *protocol.Node) (r string)
+//@   pure
+//@ func DestinationByTunnelKey(tunnel *protocol.Node) (r string)
+//@   pure
+//@ func RoutingKey(hostname string, num int) (r string)
+//@   pure
+//@ func ClientTokenKey(token *protocol.ClientToken) (r string)
+//@   pure
+//@ func ClientHostnamesPrefix(token *protocol.ClientToken) (r string)
+//@   pure
+//@ func ClientLeaseKey(token *protocol.ClientToken) (r string)
+//@   pure
+//@ func CustomHostnameKey(hostname string) (r string)
+//@   pure
+
+// ---- C29: custom hostname bindings in the KV store
+//@ func FindCustomHostname(ctx context.Context, kv chord.KV, hostname string) (r *protocol.CustomHostname, err error)
+//@   safety off
+//@   opt frame=off
+//@   requires kv != nil
+//@   ghost gerr error = nil
+//@   ghost n int = -1
+//@   at call Get#1: assert reads-the-hostnames-binding-key: str(callarg1) == CustomHostnameKey(hostname)
+//@   at after call Get#1: ghost gerr := callresult1
+//@   at after call Get#1: ghost n := len(callresult0)
+//@   ensures local-a-read-failure-is-passed-on-not-reported-as-unbound: gerr != nil ==> (r == nil && err == gerr)
+//@   ensures local-an-empty-value-means-unbound: (gerr == nil && n == 0) ==> (r == nil && err == ErrHostnameNotFound)
+//@   ensures success-has-a-binding: err == nil ==> r != nil
+//@   ensures read-only: kv.kvWrites == old(kv.kvWrites)
+
+//@ func SaveCustomHostname(ctx context.Context, kv chord.KV, hostname string, bundle *protocol.CustomHostname) (err error)
+//@   safety off
+//@   opt frame=off
+//@   requires kv != nil
+//@   at call Put#1: assert writes-the-hostnames-binding-key: str(callarg1) == CustomHostnameKey(hostname) && callarg2 == data
+
+//@ func RemoveCustomHostname(ctx context.Context, kv chord.KV, hostname string) (err error)
+//@   safety off
+//@   opt frame=off
+//@   requires kv != nil
+//@   at call Delete#1: assert deletes-the-hostnames-binding-key: str(callarg1) == CustomHostnameKey(hostname)
